@@ -23,6 +23,7 @@ func c11(c *eng.Ctx, r *eng.Report) {
 		"R11.5 precompiles slice their input only under an established length bound, the shared accessor getData clamps the start offset to len(data) before adding the size and clamps the end too, and RunPrecompiledContract charges before running; " +
 		"R11.6 panics reachable from the interpreter are the reviewed ones; R11.7 overflow flags are consumed; R11.8 Run validates the stack, charges constant and dynamic gas and resizes memory before operation.execute. " +
 		"R11.9 a write attempt in read-only context surfaces as ErrWriteProtection: Run refuses rows flagged `writes` under the interpreter-wide in.readOnly flag (not the frame argument) before operation.execute, and the flag is sticky across nested frames (shared with C12). " +
+		"R11.10 callGas/authCallGas return min(request, a - a/64) with a = available - base, and the four call-family gas functions call callGas(true, contract.Gas, …). " +
 		"Not decided: termination as such, exact gas values."
 	r.Assume = []string{"memory is grown only by Run (mem.Resize) to the size computed by the row's memorySize function", "no recover() exists in vm/executor/core, so a reachable panic crashes the host"}
 	rows := analyseRows(c, r, "R11.1")
@@ -35,6 +36,7 @@ func c11(c *eng.Ctx, r *eng.Report) {
 	c11Panics(c, r)
 	c11Overflow(c, r)
 	c11RunOrder(c, r)
+	c11SixtyThreeSixtyFourths(c, r)
 	// R11.9 write attempts in read-only context surface as a failed call: the interpreter refuses
 	// write rows under the *sticky* in.readOnly flag before executing them (shared with C12 R12.2/R12.3)
 	if run := c.Func("vm", "(*EVMInterpreter).Run"); r.Anchor(run != nil, "R11.9", "vm.(*EVMInterpreter).Run") {
@@ -793,4 +795,144 @@ func pathAvoids(fn *ssa.Function, a, b, m ssa.Instruction) bool {
 		}
 	}
 	return true
+}
+
+// c11SixtyThreeSixtyFourths: a nested call can be given at most all but one
+// 64th of the gas left after the call's own cost, which is what bounds the
+// depth × gas product. callGas/authCallGas cap the request at a - a/64 with
+// a = available - base, and every caller asks for the capped form.
+func c11SixtyThreeSixtyFourths(c *eng.Ctx, r *eng.Report) {
+	const rule = "R11.10"
+	r.Min(rule, 3)
+	for _, name := range []string{"callGas", "authCallGas"} {
+		fn := c.Func("vm", name)
+		if !r.Anchor(fn != nil, rule, "vm."+name) {
+			continue
+		}
+		var capV ssa.Value
+		for _, b := range fn.Blocks {
+			for _, in := range b.Instrs {
+				bo, ok := in.(*ssa.BinOp)
+				if !ok || bo.Op != token.SUB {
+					continue
+				}
+				q, ok := bo.Y.(*ssa.BinOp)
+				if !ok || q.Op != token.QUO || q.X != bo.X {
+					continue
+				}
+				if k, isK := eng.ConstInt(q.Y); !isK || k != 64 {
+					continue
+				}
+				if a, isA := bo.X.(*ssa.BinOp); isA && a.Op == token.SUB && isParamNamed(a.X, "availableGas") && isParamNamed(a.Y, "base") {
+					capV = bo
+				}
+			}
+		}
+		why := ""
+		if capV == nil {
+			why = "the cap (available-base) - (available-base)/64 is no longer computed"
+		} else {
+			for _, re := range eng.Returns(fn) {
+				v := eng.RetValue(re.Ret, 0)
+				if v == capV {
+					continue
+				}
+				if k, isK := eng.ConstInt(v); isK && k == 0 {
+					continue
+				}
+				// the requested amount may be returned only where it was compared with the cap and found not larger
+				under := false
+				for _, cd := range eng.EdgeConds(re.Ret.Block()) {
+					if m, ok := cd.Cmp(); ok && (m.X == capV || m.Y == capV) {
+						under = true
+					}
+				}
+				if name == "callGas" {
+					// the pre-EIP150 branch returns the request uncapped; callers must not select it (checked below)
+					for _, cd := range eng.EdgeConds(re.Ret.Block()) {
+						if isParamNamed(cd.V, "isEip150") && !cd.True {
+							under = true
+						}
+					}
+					// fallthrough return after the `if isEip150 {…}` block: reached with isEip150 false, or with the cap test failed
+					if !under && strings.Contains(eng.Desc(v), "callCost") {
+						under = reachedOnlyUncappedOrCompared(fn, re.Ret, capV)
+					}
+				}
+				if !under {
+					why = "a return of " + eng.Desc(v) + " is not guarded by a comparison with the 63/64 cap"
+				}
+			}
+		}
+		r.Check(why == "", rule, "vm."+name+":cap", c.Pos(fn.Pos()), "returns min(request, a - a/64) with a = availableGas - base", name+": "+why+": a nested call could be forwarded (almost) all remaining gas, so gas handed down no longer shrinks geometrically with depth")
+	}
+	cg := c.Func("vm", "callGas")
+	if cg != nil {
+		n := 0
+		for _, s := range c.Callers(cg) {
+			if c.IsTestFunc(s.Fn) {
+				continue
+			}
+			n++
+			k, ok := s.Common().Args[0].(*ssa.Const)
+			isTrue := ok && k.Value != nil && k.Value.ExactString() == "true"
+			avail := eng.Desc(s.Common().Args[1])
+			r.Check(isTrue && strings.HasSuffix(avail, "contract.Gas"), rule, fmt.Sprintf("callGas@%s", eng.FuncName(s.Fn)), c.Pos(s.Pos()), "callGas(true, contract.Gas, cost so far, requested)", eng.FuncName(s.Fn)+" calls callGas with isEip150="+eng.Desc(s.Common().Args[0])+" and available="+avail+": the 63/64 cap is not applied to the gas this frame really has left")
+		}
+		r.Check(n >= 4, rule, "callGas:callers", "", fmt.Sprintf("%d dynamic-gas functions use callGas", n), fmt.Sprintf("only %d callers of callGas (CALL, CALLCODE, DELEGATECALL, STATICCALL expected)", n))
+	}
+}
+
+// reachedOnlyUncappedOrCompared: every path from the entry to ret crosses an
+// edge on which isEip150 is false, or the false edge of the test that compares
+// the cap with the request (`!IsUint64() || gas < request`).
+func reachedOnlyUncappedOrCompared(fn *ssa.Function, ret *ssa.Return, capV ssa.Value) bool {
+	qualifies := func(p, s *ssa.BasicBlock) bool {
+		iff, ok := p.Instrs[len(p.Instrs)-1].(*ssa.If)
+		if !ok || len(p.Succs) != 2 {
+			return false
+		}
+		taken := p.Succs[0] == s
+		if isParamNamed(iff.Cond, "isEip150") && !taken {
+			return true
+		}
+		mentions := func(v ssa.Value) bool {
+			bo, isB := v.(*ssa.BinOp)
+			return isB && (bo.X == capV || bo.Y == capV)
+		}
+		if !taken {
+			if mentions(iff.Cond) {
+				return true
+			}
+			if ph, isPhi := iff.Cond.(*ssa.Phi); isPhi {
+				for _, e := range ph.Edges {
+					if mentions(e) {
+						return true
+					}
+				}
+			}
+		}
+		return false
+	}
+	seen := map[*ssa.BasicBlock]bool{}
+	var back func(b *ssa.BasicBlock) bool // true = some unqualified path reaches the entry
+	back = func(b *ssa.BasicBlock) bool {
+		if b.Index == 0 {
+			return true
+		}
+		if seen[b] {
+			return false
+		}
+		seen[b] = true
+		for _, p := range b.Preds {
+			if qualifies(p, b) {
+				continue
+			}
+			if back(p) {
+				return true
+			}
+		}
+		return false
+	}
+	return !back(ret.Block())
 }
